@@ -438,6 +438,40 @@ func checkC20Membership(w *World, r *Report, recv *ssa.Function, smT interface{}
 					okM = false
 				}
 			}
+			// written as a loop in the case itself: the loop over msg.Members is reached on every path of the case and
+			// each of its iterations passes the addition (whether each unknown element is added: adds-each, R3)
+			if !okM {
+				bound, _ := g.CondEdges(func(v ssa.Value) (bool, bool) {
+					b, ok := v.(*ssa.BinOp)
+					if !ok || b.Op != token.LSS {
+						return true, false
+					}
+					y := w.pathOf(b.Y)
+					return true, strings.HasPrefix(y, "len(assert<*cluster.Members>(") && strings.HasSuffix(y, "#0.Members)")
+				})
+				hdr := make([]bool, len(g.ins))
+				for _, e := range bound {
+					hdr[e.from] = true
+				}
+				okM = len(bound) > 0
+				rh := reachFromEdges(g, ms, hdr)
+				for _, x := range g.returns {
+					if rh[x] {
+						okM = false
+					}
+				}
+				for _, e := range bound {
+					ri := g.reach([]int{e.to}, addedM, nil)
+					if ri[e.from] {
+						okM = false
+					}
+					for _, x := range g.returns {
+						if ri[x] {
+							okM = false
+						}
+					}
+				}
+			}
 		}
 		r.Check(okM, "C20.R2", fname(recv)+":Members", "a received member list is added in full", site, "members learnt from a peer are dropped")
 		st := w.caseEdges(g, "actor.Started")
@@ -514,6 +548,83 @@ func (pv *provider) checkAddsEach(r *Report, addM *ssa.Function) {
 			F, S = cs.fn, p[:i]
 		}
 	}
+	// the other shape: the loop hands each element S[i] to a helper that adds its parameter unless the set contains it
+	var viaHelper []int
+	if F == nil {
+		type addSite struct {
+			fn *ssa.Function
+			n  int
+			c  *ssa.Call
+		}
+		var adds []addSite
+		{
+			restore := w.noCtx()
+			for _, fn := range pv.funcs {
+				hg := w.FG(fn)
+				for i, in := range hg.ins {
+					if c, ok := in.(*ssa.Call); ok && c.Call.StaticCallee() == pv.msAdd && len(c.Call.Args) >= 2 && ownSet(w.pathOf(c.Call.Args[0])) {
+						adds = append(adds, addSite{fn, i, c})
+					}
+				}
+			}
+			restore()
+		}
+		for _, cs := range adds {
+			H := cs.fn
+			restore := w.noCtx()
+			hg := w.FG(H)
+			pp := w.pathOf(cs.c.Call.Args[1])
+			k := 0
+			if _, err := fmt.Sscanf(pp, "P%d", &k); err != nil || pp != fmt.Sprintf("P%d", k) || k <= 0 {
+				restore()
+				continue
+			}
+			AH := make([]bool, len(hg.ins))
+			AH[cs.n] = true
+			known, _ := hg.CondEdges(func(v ssa.Value) (bool, bool) {
+				q := w.pathOf(v)
+				return true, strings.HasPrefix(q, "call:(*cluster.MemberSet).Contains(") && strings.HasSuffix(q, ","+pp+")")
+			})
+			cut := map[Edge]bool{}
+			for _, e := range known {
+				cut[e] = true
+			}
+			adder := true
+			rr := hg.reach(hg.entry(), AH, cut)
+			for _, x := range hg.returns {
+				if rr[x] {
+					adder = false
+				}
+			}
+			for _, in := range hg.ins {
+				switch in.(type) {
+				case *ssa.Go, *ssa.Defer:
+					adder = false
+				}
+			}
+			restore()
+			if !adder {
+				continue
+			}
+			for _, fn := range pv.funcs {
+				if fn == H {
+					continue
+				}
+				g := w.FGI(fn)
+				for i, in := range g.ins {
+					c, isCall := in.(*ssa.Call)
+					if !isCall || g.inl[i] || c.Call.StaticCallee() != H || k >= len(c.Call.Args) {
+						continue
+					}
+					q := w.pathOf(c.Call.Args[k])
+					if j := strings.LastIndex(q, "["); j > 0 && strings.HasSuffix(q, "]") {
+						F, S = fn, q[:j]
+						viaHelper = append(viaHelper, i)
+					}
+				}
+			}
+		}
+	}
 	if F == nil {
 		r.Fail("C20.R3", key, what, w.fnPos(addM), "no loop adds the elements of a received member list")
 		return
@@ -541,6 +652,11 @@ func (pv *provider) checkAddsEach(r *Report, addM *ssa.Function) {
 	for _, cs := range pv.changeSites() {
 		if cs.add && cs.fn == F && strings.HasPrefix(w.pathOf(cs.c.Call.Args[1]), S+"[") {
 			A[cs.n] = true
+		}
+	}
+	for _, n := range viaHelper {
+		if n < len(A) && ag.ins[n].Parent() == F {
+			A[n] = true
 		}
 	}
 	// inside the loop: from the "not contained" edge (or from the loop body's entry when there is no test) the
